@@ -221,7 +221,10 @@ class Result:
             self.samples.append(sample)
 
     def fail(self, **kw):
-        if len(self.failures) < 25:
+        # known-finding instances are capped separately so that they can never crowd out a different violation
+        sig = kw.get("finding_sig")
+        same = [f for f in self.failures if f.get("finding_sig") == sig]
+        if len(same) < (5 if sig else 25):
             self.failures.append(kw)
 
     def to_json(self):
